@@ -18,7 +18,7 @@ from dataclasses import dataclass, field
 from typing import Optional
 
 from ..cfg import CFG, loop_body_nodes
-from ..core import AnalysisError, ClassInfo, FuncInfo, call_name, get_kwarg, norm, short
+from ..core import AnalysisError, ClassInfo, FuncInfo, call_name, get_kwarg, norm, short, walk_local
 from ..engine import Engine
 
 FITNESS_CTORS = {"ConstraintFitness", "DistanceAwareConstraintFitness"}
@@ -292,3 +292,81 @@ def score_sites(eng: Engine, cls: ClassInfo) -> tuple[list[ScoreSite], str]:
                 site.via = "literal"
             sites.append(site)
     return sites, lst or "?"
+
+
+# ---------------------------------------------------------------- context forwarding (scope / local_variables)
+def context_forwarding_rule(chk, eng: Engine, rule: str) -> None:
+    """Quantifiers bind their variable in `scope` (and `local_variables`) and evaluate their body - a constraint or a search - under that
+    binding.  The binding travels as an ordinary argument through the constraint classes and the search classes; a method that receives
+    it and calls another method that also takes it must pass it on.  Where it is dropped the callee runs with the default (None): the inner
+    search resolves against the whole tree or finds nothing, and a nested quantifier becomes vacuously true."""
+    CTX = ("scope", "local_variables")
+    fams = []
+    for modn, cn in (("fandango.language.search", "NonTerminalSearch"), ("fandango.constraints.base", "GeneticBase")):
+        base = eng.cls(modn, cn)
+        fams.append([base] + base.all_subclasses())
+    n = 0
+    for fam in fams:
+        # method name -> parameter lists (without self) of every definition in the family
+        sigs: dict[str, list[list[str]]] = {}
+        for k in fam:
+            for m in k.methods.values():
+                sigs.setdefault(m.name, []).append([p_ for p_ in m.params() if p_ != "self"])
+        for k in fam:
+            for m in k.methods.values():
+                mine = [p_ for p_ in m.params() if p_ in CTX]
+                if not mine:
+                    continue
+                # locals derived from a context parameter (`scope = scope or {}`, `new_scope = dict(scope)`, `local_vars = {**local_variables, ...}`)
+                derived = {c: {c} for c in mine}
+                for _ in range(3):
+                    for a in walk_local(m.node):
+                        if isinstance(a, (ast.Assign, ast.AnnAssign)) and a.value is not None:
+                            used = {x.id for x in ast.walk(a.value) if isinstance(x, ast.Name)}
+                            for c in mine:
+                                if used & derived[c]:
+                                    for t_ in (a.targets if isinstance(a, ast.Assign) else [a.target]):
+                                        if isinstance(t_, ast.Name):
+                                            derived[c].add(t_.id)
+                for c_ in walk_local(m.node):
+                    if not (isinstance(c_, ast.Call) and isinstance(c_.func, ast.Attribute) and c_.func.attr in sigs) or c_.func.attr.startswith("__"):
+                        continue
+                    recv = c_.func.value
+                    if isinstance(recv, ast.Name) and recv.id == "self":
+                        # resolved in the receiver's own class line
+                        line = k.mro() + k.all_subclasses()
+                        cands = [[p_ for p_ in kk.methods[c_.func.attr].params() if p_ != "self"] for kk in line if c_.func.attr in kk.methods]
+                    else:
+                        cands = sigs[c_.func.attr]
+                    callee_sigs = [sg for sg in cands if any(p_ in CTX for p_ in sg)]
+                    if not callee_sigs or len(callee_sigs) != len(cands):
+                        continue  # not (or not always) a context-taking method
+                    if any(isinstance(a_, ast.Starred) for a_ in c_.args) or any(kw.arg is None for kw in c_.keywords):
+                        continue
+                    for c in mine:
+                        with_c = [sg for sg in callee_sigs if c in sg]
+                        if len(with_c) != len(callee_sigs):
+                            continue
+                        n += 1
+                        passed = None
+                        for kw in c_.keywords:
+                            if kw.arg == c:
+                                passed = kw.value
+                        if passed is None:
+                            idxs = {sg.index(c) for sg in with_c}
+                            if len(idxs) == 1 and len(c_.args) > next(iter(idxs)):
+                                passed = c_.args[next(iter(idxs))]
+                            elif len(idxs) > 1 and all(len(c_.args) > i_ for i_ in idxs):
+                                chk.ok(rule, m.fq, c_.lineno, f"`{short(c_, 60)}` passes `{c}` positionally (position differs between overrides)", nontrivial=False)
+                                continue
+                        ok_ = passed is not None and ({x.id for x in ast.walk(passed) if isinstance(x, ast.Name)} & derived[c])
+                        if ok_:
+                            chk.ok(rule, m.fq, c_.lineno, f"`{short(c_, 60)}` passes `{c}` on")
+                        elif passed is not None:
+                            chk.ok(rule, m.fq, c_.lineno, f"`{short(c_, 60)}` passes an explicit `{c}` of its own (`{short(passed, 30)}`)", nontrivial=False)
+                        else:
+                            chk.bad(rule, eng.relfile(m), c_.lineno, m.fq, f"`{short(c_, 70)}` does not pass `{c}` on although {k.name}.{m.name} received it and `{c_.func.attr}` takes it",
+                                    "bindings of enclosing quantifiers are lost: the inner search is resolved without them (an inner domain `<r>.<cell>` finds nothing, the inner forall is "
+                                    "vacuously true) and trees that violate the constraint are accepted", keyparts=f"context-dropped|{k.name}.{m.name}|{c_.func.attr}|{c}")
+    if n < 20:
+        raise AnalysisError(f"only {n} context-forwarding call sites found in the search and constraint classes")
